@@ -1,4 +1,4 @@
-import SqlObjVerif.Lemmas.ConcB
+import SqlObjVerif.Lemmas.ConcC
 /-!
 # C09 — the instance cache is thread-safe under every interleaving
 
@@ -7,9 +7,12 @@ Model: `SqlObjVerif.Conc` (small-step interleaving semantics of `cache.py` + the
 (any number of threads); programs are arbitrary lists of get / create / expire / expireAll / cull.
 
 * full (every program, every schedule): `C09_conc_inv`, `C09_lock_free_at_quiescence`, `C09_progress`.
-* the map clauses are FALSE of the current code when a lock-free `created` runs concurrently
-  (`…_full_FALSE`, concrete schedules replayed on the real code by harness/c09.py) and are proved for
-  every program without `create` (`…_partial`, hypothesis `NoCreateProgs`, decidable per program).
+* the map clauses are FALSE of the current code when a lock-free `created` races with `expireAll` or with
+  a `get` of the id being created (`…_full_FALSE`, concrete schedules replayed on the real code by
+  harness/c09.py).  They are proved (`…_partial`) under `SafeProgs`: no `create` anywhere, OR no
+  `expireAll` anywhere and every created id is fresh (named by no other thread, created once, not yet a
+  row).  `SafeL` is the same predicate on a finite program list, decidable (`C09_safe_of_list`).  The
+  hypothesis is tight: dropping either conjunct of the second disjunct has a `…_FALSE` witness.
 -/
 namespace SqlObjVerif.Conc
 
@@ -25,18 +28,116 @@ structure Cfg where
   frac : Nat
   cc : Nat
   off : Nat
+  pins : List Obj
   progs : Tid → List Op
 
-def Cfg.init (c : Cfg) : State := mkInit c.caches c.strong c.weak c.db c.fresh c.freq c.frac c.cc c.off c.progs
+def Cfg.init (c : Cfg) : State :=
+  mkInit c.caches c.strong c.weak c.db c.fresh c.freq c.frac c.cc c.off c.pins c.progs
 
-/-- the initial maps are dicts (unique keys) and hold one object per id -/
+/-- the initial maps are dicts (unique keys), hold one object per id, and every object in them was
+    allocated before `fresh` -/
 def Cfg.OK (c : Cfg) : Prop :=
-  (akeys c.strong).Nodup ∧ ∀ i o p, aget c.strong i = some o → aget c.weak i = some p → o = p
+  ((akeys c.strong).Nodup ∧ (akeys c.weak).Nodup ∧ (∀ o ∈ avals c.strong ++ avals c.weak, o < c.fresh)) ∧
+  ∀ i o p, aget c.strong i = some o → aget c.weak i = some p → o = p
 
 /-- no thread's program contains `create` (the only lock-free writer of the maps) -/
 def NoCreateProgs (c : Cfg) : Prop := ∀ t, ∀ op ∈ c.progs t, isCreate op = false
 
+/-- no thread's program contains `expireAll` (the only operation that iterates over / rebinds `cache`) -/
+def NoExpireAllProgs (c : Cfg) : Prop := ∀ t, ∀ op ∈ c.progs t, isEA op = false
+
+/-- created ids are fresh: named by no other thread's get / expire / create, created at most once per
+    thread, and not yet a row; cached rows exist -/
+def FreshCreates (c : Cfg) : Prop :=
+  (∀ t u, t ≠ u → ∀ i ∈ progCrIds (c.progs t), i ∉ progIds (c.progs u)) ∧
+  (∀ t, (progCrIds (c.progs t)).Nodup) ∧
+  (∀ t, ∀ i ∈ progCrIds (c.progs t), i ∉ c.db) ∧
+  (∀ i, (aget c.strong i ≠ none ∨ aget c.weak i ≠ none) → i ∈ c.db)
+
+/-- the class of programs for which the map clauses are proved -/
+def SafeProgs (c : Cfg) : Prop := NoCreateProgs c ∨ (NoExpireAllProgs c ∧ FreshCreates c)
+
+/-! ### the same hypothesis as a decidable predicate on a finite list of programs (`progsOf l t = l.getD t []`) -/
+def FreshL (l : List (List Op)) (strong weak : AMap) (db : List Id) : Prop :=
+  (∀ a ∈ List.range l.length, ∀ b ∈ List.range l.length, a ≠ b →
+      ∀ i ∈ progCrIds (l.getD a []), i ∉ progIds (l.getD b [])) ∧
+  (∀ p ∈ l, (progCrIds p).Nodup) ∧
+  (∀ p ∈ l, ∀ i ∈ progCrIds p, i ∉ db) ∧
+  (∀ kv ∈ strong ++ weak, kv.1 ∈ db)
+
+def SafeL (l : List (List Op)) (strong weak : AMap) (db : List Id) : Prop :=
+  (∀ p ∈ l, ∀ op ∈ p, isCreate op = false) ∨ ((∀ p ∈ l, ∀ op ∈ p, isEA op = false) ∧ FreshL l strong weak db)
+
+instance (l : List (List Op)) (strong weak : AMap) (db : List Id) : Decidable (FreshL l strong weak db) := by
+  unfold FreshL; infer_instance
+
+instance (l : List (List Op)) (strong weak : AMap) (db : List Id) : Decidable (SafeL l strong weak db) := by
+  unfold SafeL; infer_instance
+
+theorem C09_fresh_of_list (l : List (List Op)) (c : Cfg) (hp : c.progs = progsOf l)
+    (h : FreshL l c.strong c.weak c.db) : FreshCreates c := by
+  have hpt : ∀ t, c.progs t = l.getD t [] := fun t => by rw [hp]; rfl
+  obtain ⟨h2, h3, h4, h5⟩ := h
+  refine ⟨?_, ?_, ?_, ?_⟩
+  · intro t u htu i hi
+    rw [hpt] at hi ⊢
+    rcases getD_mem_or_nil l t with e | ⟨ht, _⟩
+    · rw [e] at hi; simp [progCrIds] at hi
+    · rcases getD_mem_or_nil l u with e | ⟨hu, _⟩
+      · rw [e]; simp [progIds]
+      · exact h2 t (List.mem_range.2 ht) u (List.mem_range.2 hu) htu i hi
+  · intro t
+    rw [hpt]
+    rcases getD_mem_or_nil l t with e | ⟨_, e⟩
+    · rw [e]; simp [progCrIds]
+    · exact h3 _ e
+  · intro t i hi
+    rw [hpt] at hi
+    rcases getD_mem_or_nil l t with e | ⟨_, e⟩
+    · rw [e] at hi; simp [progCrIds] at hi
+    · exact h4 _ e i hi
+  · intro i hi
+    rcases hi with hi | hi
+    · obtain ⟨kv, hm, e⟩ := aget_mem _ _ hi
+      exact e ▸ h5 kv (by simp [hm])
+    · obtain ⟨kv, hm, e⟩ := aget_mem _ _ hi
+      exact e ▸ h5 kv (by simp [hm])
+
+/-- the decidable list predicate implies the hypothesis of the theorems -/
+theorem C09_safe_of_list (l : List (List Op)) (c : Cfg) (hp : c.progs = progsOf l)
+    (h : SafeL l c.strong c.weak c.db) : SafeProgs c := by
+  rcases h with h | ⟨h1, h2⟩
+  · left; rw [NoCreateProgs, hp]; exact all_of_list isCreate l h
+  · right; refine ⟨?_, C09_fresh_of_list l c hp h2⟩
+    rw [NoExpireAllProgs, hp]; exact all_of_list isEA l h1
+
 instance (s : State) (i : Id) (o : Obj) : Decidable (Reach s i o) := by unfold Reach; infer_instance
+
+theorem C09_init_invs (c : Cfg) (hc : c.OK) : AInv c.init ∧ BInv c.init ∧ FInv c.init ∧ EInv c.init :=
+  ⟨ainv_init _ _ _ _ _ _ _ _ _ _ _ hc.1.1 hc.1.2.1, binv_init _ _ _ _ _ _ _ _ _ _ _ hc.2,
+   finv_init _ _ _ _ _ _ _ _ _ _ _ (fun o ho => hc.1.2.2 o (by simp [ho])) (fun o ho => hc.1.2.2 o (by simp [ho])),
+   einv_init _ _ _ _ _ _ _ _ _ _ _⟩
+
+/-- all invariant layers at the end of any schedule, for a safe configuration -/
+theorem C09_safe_inv (c : Cfg) (hc : c.OK) (hs : SafeProgs c) (sched : List Tid) :
+    BInv (run c.init sched) ∧ EInv (run c.init sched) := by
+  obtain ⟨ha, hb, hfi, he⟩ := C09_init_invs c hc
+  rcases hs with hn | ⟨hn, hf1, hf2, hf3, hf4⟩
+  · have hnn : NoCreate c.init := nocreate_init _ _ _ _ _ _ _ _ _ _ _ hn
+    exact ⟨(inv_run _ sched ha hb hfi hnn).2.1, inv_run_e _ sched ha hb hfi hnn he⟩
+  · have hf : Fresh c.init := fresh_init _ _ _ _ _ _ _ _ _ _ _ hf1 hf2
+    have hne : NoEA c.init := noea_init _ _ _ _ _ _ _ _ _ _ _ hn
+    have hci : CInv c.init := cinv_init _ _ _ _ _ _ _ _ _ _ _ hf4 hf3
+    have := inv_run_fresh _ sched ha hb hfi hf hne hci he
+    exact ⟨this.2.1, this.2.2.2.2.2⟩
+
+theorem C09_safe_reach (c : Cfg) (hc : c.OK) (hs : SafeProgs c) (sched : List Tid) (i : Id) (o : Obj)
+    (hr : Reach c.init i o) (hal : Held c.init o) : Reach (run c.init sched) i o := by
+  obtain ⟨ha, hb, hfi, _⟩ := C09_init_invs c hc
+  rcases hs with hn | ⟨hn, hf1, hf2, hf3, hf4⟩
+  · exact reach_run _ sched ha hb hfi (nocreate_init _ _ _ _ _ _ _ _ _ _ _ hn) i o hr hal
+  · exact reach_run_fresh _ sched ha hb hfi (fresh_init _ _ _ _ _ _ _ _ _ _ _ hf1 hf2)
+      (noea_init _ _ _ _ _ _ _ _ _ _ _ hn) (cinv_init _ _ _ _ _ _ _ _ _ _ _ hf4 hf3) i o hr hal
 
 /-! ## full theorems: every program, every schedule, any number of threads -/
 
@@ -45,7 +146,7 @@ instance (s : State) (i : Id) (o : Obj) : Decidable (Reach s i o) := by unfold R
     unique keys; every key the holder is about to `del` / read (`needS`, `needW`) is still there, so no
     KeyError and no release of a free lock can occur. -/
 theorem C09_conc_inv (c : Cfg) (hc : c.OK) (sched : List Tid) : AInv (run c.init sched) :=
-  ainv_run _ sched (ainv_init _ _ _ _ _ _ _ _ _ _ hc.1)
+  ainv_run _ sched (ainv_init _ _ _ _ _ _ _ _ _ _ _ hc.1.1 hc.1.2.1)
 
 /-- when every thread has finished, the cache lock is free -/
 theorem C09_lock_free_at_quiescence (c : Cfg) (hc : c.OK) (sched : List Tid)
@@ -76,37 +177,36 @@ theorem C09_cullcount_benign (c : Cfg) (hc : c.OK) (cc freq : Nat) (sched : List
     AInv (run { c with cc := cc, freq := freq }.init sched) :=
   C09_conc_inv { c with cc := cc, freq := freq } hc sched
 
-/-! ## the map clauses: partial theorems (programs without `create`) -/
+/-! ## the map clauses: partial theorems (hypothesis `SafeProgs`) -/
 
-theorem C09_inv_partial (c : Cfg) (hc : c.OK) (hn : NoCreateProgs c) (sched : List Tid) :
+theorem C09_inv_partial (c : Cfg) (hc : c.OK) (hn : SafeProgs c) (sched : List Tid) :
     BInv (run c.init sched) :=
-  (inv_run _ sched (ainv_init _ _ _ _ _ _ _ _ _ _ hc.1) (binv_init _ _ _ _ _ _ _ _ _ _ hc.2)
-    (nocreate_init _ _ _ _ _ _ _ _ _ _ hn)).2.1
+  (C09_safe_inv c hc hn sched).1
 
 /-- `cache` and `expiredCache` never hold two different objects for one id -/
-theorem C09_one_object_per_id_partial (c : Cfg) (hc : c.OK) (hn : NoCreateProgs c) (sched : List Tid)
+theorem C09_one_object_per_id_partial (c : Cfg) (hc : c.OK) (hn : SafeProgs c) (sched : List Tid)
     (i : Id) (o p : Obj) (h1 : aget (run c.init sched).strong i = some o)
     (h2 : aget (run c.init sched).weak i = some p) : o = p :=
   (C09_inv_partial c hc hn sched).uniq i o p h1 h2
 
-/-- every object a thread got, and every object the environment held at the start, stays reachable for
-    its id through `cache` ∪ `expiredCache` (or is the entry the lock holder is moving right now), unless
-    an `expire(id)` removed it (`stale`) -/
-theorem C09_referenced_reachable_partial (c : Cfg) (hc : c.OK) (hn : NoCreateProgs c) (sched : List Tid) :
+/-- every object a thread got, and every cached object the environment references (`pins`), stays
+    reachable for its id through `cache` ∪ `expiredCache` (or is the entry the lock holder is moving right
+    now), unless an `expire(id)` removed it (`stale`).  Unreferenced objects may die: their dead weak
+    references are dropped by `get` / `cull`. -/
+theorem C09_referenced_reachable_partial (c : Cfg) (hc : c.OK) (hn : SafeProgs c) (sched : List Tid) :
     (∀ t i o, Out.obj i o ∈ ((run c.init sched).th t).outs → Reach (run c.init sched) i o) ∧
-    (∀ i o, (aget c.strong i = some o ∨ aget c.weak i = some o) → Reach (run c.init sched) i o) := by
+    (∀ i o, (aget c.strong i = some o ∨ aget c.weak i = some o) → o ∈ c.pins → Reach (run c.init sched) i o) := by
   refine ⟨(C09_inv_partial c hc hn sched).outs, ?_⟩
-  intro i o h0
+  intro i o h0 hpin
   have hr : Reach c.init i o := by
     rcases h0 with h | h
     · exact Or.inl h
     · exact Or.inr (Or.inl h)
-  exact reach_run _ sched (ainv_init _ _ _ _ _ _ _ _ _ _ hc.1) (binv_init _ _ _ _ _ _ _ _ _ _ hc.2)
-    (nocreate_init _ _ _ _ _ _ _ _ _ _ hn) i o hr
+  exact C09_safe_reach c hc hn sched i o hr (Or.inr hpin)
 
 /-- all completed operations on one id returned the same object, unless an `expire(id)` removed one of
     them from the cache in between -/
-theorem C09_same_object_partial (c : Cfg) (hc : c.OK) (hn : NoCreateProgs c) (sched : List Tid)
+theorem C09_same_object_partial (c : Cfg) (hc : c.OK) (hn : SafeProgs c) (sched : List Tid)
     (t u : Tid) (i : Id) (o p : Obj)
     (ht : Out.obj i o ∈ ((run c.init sched).th t).outs) (hu : Out.obj i p ∈ ((run c.init sched).th u).outs)
     (ho : o ∉ (run c.init sched).stale) (hp : p ∉ (run c.init sched).stale) : o = p := by
@@ -119,26 +219,25 @@ theorem C09_same_object_partial (c : Cfg) (hc : c.OK) (hn : NoCreateProgs c) (sc
   grind
 
 /-- … and it is the object the environment held for that id at the start, if there was one -/
-theorem C09_same_object_as_initial_partial (c : Cfg) (hc : c.OK) (hn : NoCreateProgs c) (sched : List Tid)
+theorem C09_same_object_as_initial_partial (c : Cfg) (hc : c.OK) (hn : SafeProgs c) (sched : List Tid)
     (t : Tid) (i : Id) (o p : Obj)
     (ht : Out.obj i o ∈ ((run c.init sched).th t).outs) (h0 : aget c.strong i = some p ∨ aget c.weak i = some p)
-    (ho : o ∉ (run c.init sched).stale) (hp : p ∉ (run c.init sched).stale) : o = p := by
+    (hpin : p ∈ c.pins) (ho : o ∉ (run c.init sched).stale) (hp : p ∉ (run c.init sched).stale) : o = p := by
   have hb := C09_inv_partial c hc hn sched
   have r1 := hb.outs t i o ht
-  have r2 := (C09_referenced_reachable_partial c hc hn sched).2 i p h0
+  have r2 := (C09_referenced_reachable_partial c hc hn sched).2 i p h0 hpin
   have hu := hb.uniq
   have ht1 := hb.tr1
   unfold Reach at r1 r2
   grind
 
 /-- no operation ends with an exception other than the documented not-found -/
-theorem C09_no_exception_but_notfound_partial (c : Cfg) (hc : c.OK) (hn : NoCreateProgs c) (sched : List Tid)
+theorem C09_no_exception_but_notfound_partial (c : Cfg) (hc : c.OK) (hn : SafeProgs c) (sched : List Tid)
     (t : Tid) (e : Exc) : Out.exc e ∉ ((run c.init sched).th t).outs :=
-  (inv_run_e _ sched (ainv_init _ _ _ _ _ _ _ _ _ _ hc.1) (binv_init _ _ _ _ _ _ _ _ _ _ hc.2)
-    (nocreate_init _ _ _ _ _ _ _ _ _ _ hn) (einv_init _ _ _ _ _ _ _ _ _ _) t).2 e
+  ((C09_safe_inv c hc hn sched).2 t).2 e
 
 /-- `expire` is the only source of `stale`: without it the partial theorems are unconditional -/
-example : (run (Cfg.init ⟨true, [(1, 0)], [], [1], 1, 100, 2, 0, 0, fun t => if t < 2 then [.get 1] else []⟩)
+example : (run (Cfg.init ⟨true, [(1, 0)], [], [1], 1, 100, 2, 0, 0, [0], fun t => if t < 2 then [.get 1] else []⟩)
     [0, 1, 0, 1, 0, 1, 0, 1]).stale = [] := by decide
 
 /-! ## the full statements are FALSE of the current code: concrete schedules (replayed on the real
@@ -146,11 +245,11 @@ example : (run (Cfg.init ⟨true, [(1, 0)], [], [1], 1, 100, 2, 0, 0, fun t => i
 
 /-- thread 0 creates row 7 while thread 1 runs `expireAll`; the cache holds row 1 (object 0) -/
 def wCreateExpireAll : Cfg :=
-  ⟨true, [(1, 0)], [], [1], 1, 100, 2, 0, 0, fun t => if t = 0 then [.create 7] else if t = 1 then [.expireAll] else []⟩
+  ⟨true, [(1, 0)], [], [1], 1, 100, 2, 0, 0, [0], progsOf [[.create 7], [.expireAll]]⟩
 
 /-- thread 0 creates row 7 while thread 1 gets row 7 -/
 def wCreateGet : Cfg :=
-  ⟨true, [(1, 0)], [], [1], 1, 100, 2, 0, 0, fun t => if t = 0 then [.create 7] else if t = 1 then [.get 7] else []⟩
+  ⟨true, [(1, 0)], [], [1], 1, 100, 2, 0, 0, [0], progsOf [[.create 7], [.get 7]]⟩
 
 theorem C09_wCreateExpireAll_OK : wCreateExpireAll.OK :=
   ⟨by decide, by intro i o p _ h2; simp [wCreateExpireAll] at h2⟩
@@ -206,5 +305,77 @@ example : ((run wCreateExpireAll.init schedRuntimeError).th 1).outs = [.exc .run
 example : ((run wCreateGet.init schedTwo).th 0).outs = [.obj 7 1] ∧
     ((run wCreateGet.init schedTwo).th 1).outs = [.obj 7 2] ∧
     (run wCreateGet.init schedTwo).strong = [(1, 0), (7, 1)] := by decide
+
+/-! ## the hypothesis `SafeProgs` is tight: each conjunct of its second disjunct is needed -/
+
+/-- fresh creates WITHOUT "no expireAll": referenced objects can be lost (same witness as above) -/
+theorem C09_referenced_reachable_needs_noExpireAll_FALSE :
+    ¬ (∀ (c : Cfg), c.OK → FreshCreates c → ∀ (sched : List Tid) (t : Tid) (i : Id) (o : Obj),
+        Out.obj i o ∈ ((run c.init sched).th t).outs → Reach (run c.init sched) i o) := by
+  intro h
+  have := h wCreateExpireAll C09_wCreateExpireAll_OK
+    (C09_fresh_of_list [[.create 7], [.expireAll]] wCreateExpireAll rfl (by decide)) schedLost 0 7 1 (by decide)
+  revert this
+  decide
+
+/-- fresh creates WITHOUT "no expireAll": RuntimeError in the expiring thread -/
+theorem C09_no_exception_needs_noExpireAll_FALSE :
+    ¬ (∀ (c : Cfg), c.OK → FreshCreates c → ∀ (sched : List Tid) (t : Tid) (e : Exc),
+        Out.exc e ∉ ((run c.init sched).th t).outs) := by
+  intro h
+  exact h wCreateExpireAll C09_wCreateExpireAll_OK
+    (C09_fresh_of_list [[.create 7], [.expireAll]] wCreateExpireAll rfl (by decide)) schedRuntimeError 1 .runtimeError
+    (by decide)
+
+/-- no expireAll WITHOUT freshness (another thread gets the id being created): two instances -/
+theorem C09_same_object_needs_fresh_FALSE :
+    ¬ (∀ (c : Cfg), c.OK → NoExpireAllProgs c → ∀ (sched : List Tid) (t u : Tid) (i : Id) (o p : Obj),
+        Out.obj i o ∈ ((run c.init sched).th t).outs → Out.obj i p ∈ ((run c.init sched).th u).outs →
+        o ∉ (run c.init sched).stale → p ∉ (run c.init sched).stale → o = p) := by
+  intro h
+  have := h wCreateGet C09_wCreateGet_OK (all_of_list isEA [[.create 7], [.get 7]] (by decide)) schedTwo 0 1 7 1 2
+    (by decide) (by decide) (by decide) (by decide)
+  revert this
+  decide
+
+/-- one thread creating a row that already exists: IntegrityError (the "not yet a row" conjunct) -/
+def wDup : Cfg := ⟨true, [(1, 0)], [], [1], 1, 100, 2, 0, 0, [0], progsOf [[.create 1]]⟩
+
+theorem C09_no_exception_needs_new_row_FALSE :
+    ¬ (∀ (c : Cfg), c.OK → NoExpireAllProgs c → ∀ (sched : List Tid) (t : Tid) (e : Exc),
+        Out.exc e ∉ ((run c.init sched).th t).outs) := by
+  intro h
+  exact h wDup ⟨by decide, by intro i o p _ h2; simp [wDup] at h2⟩
+    (all_of_list isEA [[.create 1]] (by decide)) [0] 0 .integrity (by decide)
+
+/-- non-vacuity of the partial theorems on a program WITH creates: two threads create 7 and 8 while a third
+    gets rows 1 and 2 and culls — `SafeL` holds by `decide` -/
+example : SafeL [[.create 7, .get 7], [.create 8, .cull], [.get 1, .get 2, .expire 1]] [(1, 0)] [(2, 1)] [1, 2] := by
+  decide
+
+/-- … and the theorems apply to it for every schedule -/
+def wSafe : Cfg :=
+  ⟨true, [(1, 0)], [(2, 1)], [1, 2], 2, 0, 2, 1, 0, [],
+   progsOf [[.create 7, .get 7], [.create 8, .cull], [.get 1, .get 2, .expire 1]]⟩
+
+example (sched : List Tid) (t : Tid) (e : Exc) : Out.exc e ∉ ((run wSafe.init sched).th t).outs :=
+  C09_no_exception_but_notfound_partial wSafe
+    ⟨by decide, by intro i o p h1 h2; simp [wSafe, aget] at h1 h2; grind⟩
+    (C09_safe_of_list _ wSafe rfl (by decide)) sched t e
+
+/-! ## the dead-weakref branches (objects nobody references die; CPython frees them at once) -/
+
+/-- row 3 is only weakly cached and nobody holds its instance: `get(3)` finds the dead reference, drops the
+    entry and builds a new instance (object 2) -/
+example : ((run (Cfg.init ⟨true, [(1, 0)], [(3, 1)], [1, 3], 2, 100, 2, 0, 0, [0], progsOf [[.get 3]]⟩)
+    (List.replicate 12 0)).th 0).outs = [.obj 3 2] := by decide
+
+/-- the same entry when the environment still references the instance: `get(3)` revives object 1 -/
+example : ((run (Cfg.init ⟨true, [(1, 0)], [(3, 1)], [1, 3], 2, 100, 2, 0, 0, [0, 1], progsOf [[.get 3]]⟩)
+    (List.replicate 12 0)).th 0).outs = [.obj 3 1] := by decide
+
+/-- `cull` pops the dead entry and does not keep a weak reference to an unreferenced instance it evicts -/
+example : (run (Cfg.init ⟨true, [(1, 0)], [(3, 1)], [1, 3], 2, 100, 2, 0, 0, [], progsOf [[.cull]]⟩)
+    (List.replicate 12 0)).weak = [] := by decide
 
 end SqlObjVerif.Conc
